@@ -394,6 +394,13 @@ __get_dir(struct dt_dt_s d, const struct dseq_clo_s *clo)
 		/* trial addition to to see where it goes */
 		struct dt_dt_s tmp = __seq_next(d, clo);
 		return dt_dtcmp(tmp, d);
+	} else {
+		/* trial addition as well, an increment that leaves the
+		 * time where it is (1d, 24h) won't get us anywhere */
+		struct dt_dt_s tmp = date_add(d, clo->ite, clo->nite);
+		if (tmp.t.u == d.t.u) {
+			return 0;
+		}
 	}
 	if (clo->ite->dv > 0) {
 		return 1;
